@@ -15,12 +15,12 @@ def mut(name, checks, file, old, new, count=1, note=""):
 
 # ---- C06 / C01
 mut("c06-no-resend-on-connack-v4", ["C06", "C01", "C16"], CORE,
-    "                    if packet.session_present() || self.new_session_at_connect {\n                        // (after a clean start the store only holds what was published since\n                        // the CONNECT: it belongs to the new session and goes out now)\n                        let resent = self.send_stored();",
-    "                    if false {\n                        let resent = self.send_stored();", count=2,
+    "                    // goes out now)\n                    let resent = self.send_stored();",
+    "                    // goes out now)\n                    let resent: Vec<GenericEvent<PacketIdType>> = Vec::new();", count=2,
     note="stored packets are not retransmitted when CONNACK(session present) is received")
 mut("c06-stored-copy-without-dup", ["C06", "C16"], CORE,
-    "                let store_packet = packet.clone().set_dup(true);\n                self.store.add(store_packet.try_into().unwrap()).unwrap();\n            } else {\n                release_packet_id_if_send_error = Some(packet_id);\n            }\n            if packet.qos() == Qos::ExactlyOnce {\n                self.pid_pubrec.insert(packet_id);\n            } else {\n                self.pid_puback.insert(packet_id);\n            }\n        } else if self.status != ConnectionStatus::Connected {\n            events.push(GenericEvent::NotifyError(MqttError::PacketNotAllowedToSend));\n            return events;\n        }\n\n        if self.status == ConnectionStatus::Connected {\n            events.push(GenericEvent::RequestSendPacket {\n                packet: packet.into(),\n                release_packet_id_if_send_error,\n            });\n            self.send_post_process(&mut events);\n        }\n\n        events\n    }\n\n    pub(crate) fn process_send_v5_0_publish(",
-    "                let store_packet = packet.clone();\n                self.store.add(store_packet.try_into().unwrap()).unwrap();\n            } else {\n                release_packet_id_if_send_error = Some(packet_id);\n            }\n            if packet.qos() == Qos::ExactlyOnce {\n                self.pid_pubrec.insert(packet_id);\n            } else {\n                self.pid_puback.insert(packet_id);\n            }\n        } else if self.status != ConnectionStatus::Connected {\n            events.push(GenericEvent::NotifyError(MqttError::PacketNotAllowedToSend));\n            return events;\n        }\n\n        if self.status == ConnectionStatus::Connected {\n            events.push(GenericEvent::RequestSendPacket {\n                packet: packet.into(),\n                release_packet_id_if_send_error,\n            });\n            self.send_post_process(&mut events);\n        }\n\n        events\n    }\n\n    pub(crate) fn process_send_v5_0_publish(",
+    "                let store_packet = packet.clone().set_dup(true);\n                self.store.add(store_packet.try_into().unwrap()).unwrap();\n            } else {\n                release_packet_id_if_send_error = Some(packet_id);",
+    "                let store_packet = packet.clone();\n                self.store.add(store_packet.try_into().unwrap()).unwrap();\n            } else {\n                release_packet_id_if_send_error = Some(packet_id);",
     note="v3.1.1 stored copy lacks DUP")
 mut("c06-store-swap-remove", ["C06", "C16"], "src/mqtt/connection/store.rs",
     "            if pkt.response_packet() == response {\n                self.map.shift_remove_index(index);",
@@ -202,8 +202,8 @@ mut("c06-oversize-drop-keeps-pubrec-set", ["C06", "C08", "C14"], CORE,
     "                self.pid_puback.remove(&packet_id);\n                self.pid_pubcomp.remove(&packet_id);",
     note="an oversize QoS 2 PUBLISH dropped on resume keeps waiting for PUBREC: a late PUBREC is then 'matching'")
 mut("c12-resume-count-forgets-pubcomp", ["C12", "C08"], CORE,
-    "            let incomplete = self.pid_puback.len() + self.pid_pubrec.len() + self.pid_pubcomp.len();",
-    "            let incomplete = self.pid_puback.len() + self.pid_pubrec.len();",
+    "            let incomplete = self.pid_puback.len() + self.pid_pubrec.len() + self.pid_pubcomp.len();\n            self.publish_send_count = incomplete.min(u16::MAX as usize) as u16;\n        }\n\n        events",
+    "            let incomplete = self.pid_puback.len() + self.pid_pubrec.len();\n            self.publish_send_count = incomplete.min(u16::MAX as usize) as u16;\n        }\n\n        events",
     note="exchanges awaiting PUBCOMP are not counted against Receive Maximum on resume")
 
 mut("c14-total-size-boundary-128", ["C14"], CORE,
